@@ -255,6 +255,8 @@ def adjudicate(module_name, unit_name, n, seed=0, want=None):
                 model[name] = _sample_int(rnd, d[1], d[2])
             elif d[0] == "bool":
                 model[name] = rnd.random() < 0.5
+            elif d[0] == "list":
+                model[name] = ({j: _sample_int(rnd, d[2], d[3]) for j in range(d[1])}, None)
         api.LAZY[0] = random.Random(rnd.getrandbits(32))
         try:
             rep = native_replay(module_name, unit_name, model)
